@@ -155,7 +155,7 @@ def run(desc, ctx):
     if max(desc['nlog'], desc['nparam']) > 255:
         ctx.count('mon.over_255')
     if desc['nlog'] + desc['nparam'] > 0:
-        ctx.nontrivial((core.h64(prof), pol, core.h64([(h, d.hex()) for (_, _, h, d) in spec.rx])))
+        ctx.nontrivial((core.h64(prof), pol, core.h64([(h, d.hex()) for (_, _, h, d, _q) in spec.rx])))
     ctx.sample({'nlog': desc['nlog'], 'nparam': desc['nparam'], 'proto': desc['proto'], 'policy': pol,
                 'sched': desc['sched'], 'uplink_packets': len(spec.tx), 'downlink_packets': len(spec.rx),
                 'connected_events': len(obs['connected']), 'first_log_entry': dev.log_toc[:1],
